@@ -212,8 +212,9 @@ def _has_tparams(toks):
 
 # ---------------------------------------------------------------- rendering
 class Layout:
-    def __init__(self, name='plain', indent='    ', nl='\n', bom=False, final_nl=True, ident_map=None):
+    def __init__(self, name='plain', indent='    ', nl='\n', bom=False, final_nl=True, ident_map=None, spread=False):
         self.name, self.indent, self.nl, self.bom, self.final_nl, self.ident_map = name, indent, nl, bom, final_nl, ident_map or {}
+        self.spread = spread  # line-spread: every bracketed element on its own (indented) line
 
 
 PLAIN = Layout()
@@ -224,25 +225,29 @@ LAYOUTS = {
     'bom': Layout('bom', bom=True),
     'tab': Layout('tab', indent='\t'),
     'nofinalnl': Layout('nofinalnl', final_nl=False),
+    'spread': Layout('spread', spread=True),
+    'spread-crlf': Layout('spread-crlf', spread=True, nl='\r\n', ident_map={'a': 'é'}),
     'multibyte': Layout('multibyte', ident_map={'a': 'é', 't': '名', 'm': 'ñ', "'s'": "'日本'", 'f': 'ƒ', 'p': 'π', 'k': 'ключ', 'C': 'Ç', 'x': 'ξ'}),
 }
 
 
 def render(toks, layout=PLAIN, spans=None):
-    """tokens -> text. If `spans` is a list it receives (token_index, start_byte, end_byte, line_no, bracket_depth)."""
+    """tokens -> text. If `spans` is a list it receives (token_index, start_byte, end_byte, line_no)."""
     out = []
     level = 0
     line = []
     pos = 3 if layout.bom else 0
     if layout.bom:
-        out.append('﻿')
-    depth = 0
+        out.append('\ufeff')
+    depth = 0          # bracket depth (spread layout only)
+    line_depth = 0     # bracket depth at the start of the current physical line
+    fdepth = 0
     lineno = 0
     im = layout.ident_map
 
     def flush():
         nonlocal line, pos, lineno
-        s = layout.indent * level
+        s = layout.indent * level + '  ' * line_depth
         p = pos + len(s.encode())
         for j, (ti, t) in enumerate(line):
             if j:
@@ -259,6 +264,12 @@ def render(toks, layout=PLAIN, spans=None):
         line = []
         lineno += 1
 
+    def push(ti, t):
+        nonlocal line_depth
+        if not line:
+            line_depth = depth
+        line.append((ti, im.get(t, t)))
+
     for ti, t in enumerate(toks):
         if t == 'NL':
             flush()
@@ -266,8 +277,27 @@ def render(toks, layout=PLAIN, spans=None):
             level += 1
         elif t == 'DED':
             level -= 1
+        elif not layout.spread:
+            push(ti, t)
         else:
-            line.append((ti, im.get(t, t)))
+            # brackets opened by plain bracket tokens, outside f-string literals, may contain line breaks
+            if t[:1] in 'fF' and len(t) > 1 and t[1] in '\'"' and t.endswith('{'):
+                fdepth += 1
+            elif fdepth and t.startswith('}') and t[-1] in '\'"':
+                fdepth -= 1
+            if fdepth:
+                push(ti, t)
+                continue
+            if t in (')', ']', '}') and depth > 0:
+                depth -= 1
+                if line:
+                    flush()
+            push(ti, t)
+            if t in ('(', '[', '{'):
+                depth += 1
+                flush()
+            elif t == ',' and depth > 0:
+                flush()
     if line:
         flush()
     text = ''.join(out)
